@@ -4,6 +4,7 @@ from .. import scheme as K
 from .. import pyspec as S
 from .. import core
 ID = "C03"
+SPEC_ORACLE = ['shake', 'bits', 'samplers', 'rounding']   # specification definitions used by Props/C03.lean are compared with hashlib / pyspec on every run
 RULE = ("per set: (a) hash-consistent near-misses built by the MODEL with the secret key -- the first signing iteration that fails "
         "only the z-norm test (must be rejected), the second accepted iteration (`another conforming signer`, must be accepted), the "
         "accepted iteration with the largest response among the first iterations (boundary side, must be accepted); (b) non-canonical "
